@@ -5,6 +5,8 @@ import (
 	"strings"
 
 	tally "github.com/uber-go/tally/v4"
+	"github.com/uber-go/tally/v4/m3"
+	tprom "github.com/uber-go/tally/v4/prometheus"
 
 	"verifharness/mon"
 )
@@ -347,7 +349,26 @@ func genValid(r *mon.Rand) mon.RefValid {
 	return v
 }
 
+// sanCfgFromOptions mirrors real options in the reference model.
+func sanCfgFromOptions(o tally.SanitizeOptions) *sanCfg {
+	conv := func(v tally.ValidCharacters) mon.RefValid {
+		var out mon.RefValid
+		for _, rg := range v.Ranges {
+			out.Ranges = append(out.Ranges, [2]rune{rg[0], rg[1]})
+		}
+		out.Chars = append(out.Chars, v.Characters...)
+		return out
+	}
+	return &sanCfg{Name: conv(o.NameCharacters), Key: conv(o.KeyCharacters), Value: conv(o.ValueCharacters), Rep: o.ReplacementCharacter}
+}
+
 func genSanCfg(r *mon.Rand) *sanCfg {
+	switch r.Intn(10) {
+	case 0:
+		return sanCfgFromOptions(m3.DefaultSanitizerOpts) // the options the M3 configuration installs
+	case 1:
+		return sanCfgFromOptions(tprom.DefaultSanitizerOpts) // the options the Prometheus configuration installs
+	}
 	s := &sanCfg{Name: genValid(r), Key: genValid(r), Value: genValid(r)}
 	if r.Chance(1, 4) {
 		// the stock configuration used by the M3/Prometheus defaults
